@@ -153,8 +153,9 @@ def run(ctx):
     ctx.check(t in (["(this->absolute_cache_ == other.absolute_cache_)"], ["(other.absolute_cache_ == this->absolute_cache_)"]), "equality-by-absolute-path", "expression-tree", eq.loc(),
               "operator== compares absolute paths", "operator== is " + str(t))
     ne = ctx.fn1("Oomd::CgroupPath::operator!=")
-    t = [ret_text(ne, r) for r in returns(ne)]
-    ctx.check(t in (["!this->operator==(other)"], ["!(*this == other)"], ["(this->absolutePath() != other.absolutePath())"]), "inequality-is-negated-equality", "expression-tree", ne.loc(),
+    t = [ret_text(ne, r).replace(".absolutePath()", ".absolute_cache_").replace("this->absolutePath()", "this->absolute_cache_") for r in returns(ne)]
+    ctx.check(t in (["!this->operator==(other)"], ["!(*this == other)"], ["!(other == *this)"], ["(this->absolute_cache_ != other.absolute_cache_)"], ["(other.absolute_cache_ != this->absolute_cache_)"],
+                    ["!(this->absolute_cache_ == other.absolute_cache_)"], ["!(other.absolute_cache_ == this->absolute_cache_)"]), "inequality-is-negated-equality", "expression-tree", ne.loc(),
               "operator!= is the negation of operator==", "operator!= is " + str(t))
     hs = [f for f in P.fns.values() if f.pq == "std::hash::operator()" and f.params and "CgroupPath" in f.params[0]["type"]]
     ctx.counters["hash_specialisations"] = len(hs)
